@@ -185,7 +185,9 @@ type FuncAnswer struct {
 var scratchReady bool
 
 // ScratchDir is where readFile cases find their files.
-func ScratchDir() string { return filepath.Join(os.TempDir(), fmt.Sprintf("verif-c18-%d", os.Getpid())) }
+func ScratchDir() string {
+	return filepath.Join(os.TempDir(), fmt.Sprintf("verif-c18-%d", os.Getpid()))
+}
 
 func prepareScratch() {
 	if scratchReady {
